@@ -1,13 +1,13 @@
 (* Tree/NoPanicProofsHistReal.v — C12 (panic / loop half) on the regenerated tables RT with the real string tables:
    every table hypothesis of Tree/NoPanicProofsHist.v is discharged ([F]: tables_ok12, nametab_ok of the EnumItem table,
    ShortName is an element name — Tree/NoPanicReal.v; NamesOK / EnumsOK / AttrsOK — agent-c14's Tree/SortProofsReal.v;
-   the root type is plain — agent-c04's Tree/IndexProofsAll.v; reference types accept strings only — the third clause of
+   the root type is plain — evaluated here; reference types accept strings only — the third clause of
    agent-c04's real_tables_ok, which holds for ANY validator function, repeated here).
    What is left: the validators return (CHECK, C19's subject), the parameter root_attrs of AutosarModel::new is
    well-formed, and the client side of the history (wf_ops). *)
 From Coq Require Import Lia.
 From AV Require Import Base.Bytes Base.Outcome Hash.HashModel Spec.SpecOps Spec.SpecReal Xml.TablesOk
-  Tree.Heap Tree.Ops Tree.Script Tree.Inv Tree.SortProofsHeap Tree.SortProofsReadyV Tree.SortProofsReal Tree.IndexProofsNodeInv Tree.IndexProofsAll.
+  Tree.Heap Tree.Ops Tree.Script Tree.Inv Tree.SortProofsHeap Tree.SortProofsReadyV Tree.SortProofsReal Tree.IndexProofsNodeInv.
 From AV Require Import Hash.HashRealElement Hash.HashRealAttr Hash.HashRealEnum.
 From AV Require Import Tree.NoPanic Tree.NoPanicProofsBase Tree.NoPanicProofsCopy2 Tree.NoPanicProofsMoveX Tree.NoPanicFloat
   Tree.NoPanicProofsHist Tree.NoPanicReal.
@@ -25,6 +25,10 @@ Proof.
   destruct (dt_cdata d - 1 =? reference_type_idx RT) eqn:Er; [|discriminate]. apply N.eqb_eq in Er. rewrite Er in Hcs.
   vm_compute in Hcs. injection Hcs as <-. destruct v as [e|s|u|f]; cbn [check_value] in Hck; try discriminate. eauto.
 Qed.
+
+(* [F] the root type (AUTOSAR) is neither named nor a reference type (as agent-c04's root_plain_real, Tree/IndexProofsAll.v) *)
+Lemma root_plain_real : forall ty, et_new RT (autosar_element RT) = Val ty -> plainty RT ty.
+Proof. vm_compute. intros ty [= <-]. vm_compute. split; reflexivity. Qed.
 
 Section Real.
 Variable check_fn : N -> list N -> res bool.
@@ -45,7 +49,7 @@ Theorem no_panic_histories_real l : wf_ops' l empty_world -> exists w', run_opsF
 Proof.
   intros WF.
   destruct (no_panic_hist RT tab_element tab_attr tab_enum check_fn LATEST root_attrs tables_ok12_real CHECK en_ok_real short_ok_real
-              NamesOK_real EnumsOK_real AttrsOK_real RootOK (tkr_real check_fn) real_root_plain fmt l empty_world
+              NamesOK_real EnumsOK_real AttrsOK_real RootOK (tkr_real check_fn) root_plain_real fmt l empty_world
               (H12_empty _ _ _ _) WF) as (w' & E & _).
   exists w'. exact E.
 Qed.
@@ -57,7 +61,7 @@ Theorem no_panic_after_history_real l w o :
 Proof.
   intros E WF WFo SZ.
   destruct (no_panic_hist RT tab_element tab_attr tab_enum check_fn LATEST root_attrs tables_ok12_real CHECK en_ok_real short_ok_real
-              NamesOK_real EnumsOK_real AttrsOK_real RootOK (tkr_real check_fn) real_root_plain fmt l empty_world
+              NamesOK_real EnumsOK_real AttrsOK_real RootOK (tkr_real check_fn) root_plain_real fmt l empty_world
               (H12_empty _ _ _ _) WF) as (w' & E' & I).
   rewrite E in E'. injection E' as <-.
   destruct (no_panic_H12 RT tab_element tab_attr tab_enum check_fn LATEST root_attrs tables_ok12_real CHECK en_ok_real short_ok_real
@@ -71,7 +75,7 @@ Theorem panicfree_reachable_real l w :
 Proof.
   intros E.
   pose proof (H12_reachable RT tab_element tab_attr tab_enum check_fn LATEST root_attrs tables_ok12_real
-                NamesOK_real EnumsOK_real AttrsOK_real RootOK (tkr_real check_fn) real_root_plain l _ _ (H12_empty _ _ _ _) E) as I.
+                NamesOK_real EnumsOK_real AttrsOK_real RootOK (tkr_real check_fn) root_plain_real l _ _ (H12_empty _ _ _ _) E) as I.
   split; [exact (H12_PanicFree _ _ _ _ _ I)|exact (H12_RefNoFloat _ _ _ _ _ I)].
 Qed.
 
